@@ -36,6 +36,8 @@ func runC15(c *Ctx, r *Report) {
 	c15R9(c, r, "C15.R9")
 	c15R10(c, r, "C15.R10")
 	c15R11(c, r, "C15.R11")
+	c15R12(c, r, "C15.R12")
+	c15R13(c, r, "C15.R13")
 }
 
 // docOptions extracts the option keywords at block depth 1 of a "Syntax:" doc block.
@@ -867,5 +869,96 @@ func c15R11(c *Ctx, r *Report, rule string) {
 				})
 			}
 		}
+	}
+}
+
+func c15Roots(c *Ctx) map[*ssa.Function]bool {
+	var roots []*ssa.Function
+	for _, fn := range c.Funcs {
+		if fn.Name() == "UnmarshalCaddyfile" || strings.HasPrefix(fn.Name(), "ParseCaddyfile") || fn.Name() == "parseLayer4" {
+			roots = append(roots, fn)
+		}
+	}
+	return c.reach(roots)
+}
+
+// c15R12: one duration grammar. JSON durations (caddy.Duration) are decoded by caddy.ParseDuration, which knows the
+// day unit; a Caddyfile option parsed with time.ParseDuration rejects values ("1d") that the JSON form of the same
+// option accepts.
+func c15R12(c *Ctx, r *Report, rule string) {
+	r.rule(rule, "duration grammar: functions reachable from the Caddyfile unmarshallers parse durations with caddy.ParseDuration only (never time.ParseDuration), so that the Caddyfile accepts what the JSON field of type caddy.Duration accepts", 5)
+	n := 0
+	for _, fn := range sortedFuncs(c15Roots(c)) {
+		k := 0
+		for _, ci := range callsIn(fn) {
+			switch id := calleeID(ci); {
+			case id == "time.ParseDuration":
+				k++
+				r.bad(rule, fname(fn), fmt.Sprintf("duration parse#%d", k), c.ipos(ci), "a Caddyfile duration is parsed with time.ParseDuration: values with the day unit, which the JSON form of the option accepts, fail to adapt")
+			case strings.HasSuffix(id, "caddy/v2.ParseDuration"):
+				k++
+				n++
+				r.ok(rule, fname(fn), fmt.Sprintf("duration parse#%d", k), c.ipos(ci), "caddy.ParseDuration")
+			}
+		}
+	}
+	if n == 0 {
+		r.bad(rule, "unmarshallers", "durations are parsed", "-", "no caddy.ParseDuration call reachable from the unmarshallers")
+	}
+}
+
+// c15R13: one object per block. A pointer appended to a configuration list inside a loop must point to an object
+// allocated in that loop; a variable declared outside is one object, and every entry of the list ends up being the
+// last block's values.
+func c15R13(c *Ctx, r *Report, rule string) {
+	r.rule(rule, "one object per block: in functions reachable from the Caddyfile unmarshallers, a pointer appended to a list inside a loop points to an object allocated inside that loop (never to a variable that lives across iterations)", 3)
+	n := 0
+	for _, fn := range sortedFuncs(c15Roots(c)) {
+		k := 0
+		for _, ci := range callsIn(fn) {
+			call, ok := ci.(*ssa.Call)
+			if !ok || calleeID(ci) != "builtin append" || len(call.Call.Args) != 2 || !inLoop(call.Block()) {
+				continue
+			}
+			sl, ok := call.Call.Args[1].(*ssa.Slice)
+			if !ok {
+				continue
+			}
+			va, ok := sl.X.(*ssa.Alloc)
+			if !ok {
+				continue
+			}
+			for _, ref := range *va.Referrers() {
+				ia, ok := ref.(*ssa.IndexAddr)
+				if !ok {
+					continue
+				}
+				for _, r2 := range *ia.Referrers() {
+					st, ok := r2.(*ssa.Store)
+					if !ok || st.Addr != ssa.Value(ia) {
+						continue
+					}
+					if _, isPtr := st.Val.Type().Underlying().(*types.Pointer); !isPtr {
+						continue
+					}
+					k++
+					n++
+					var stale []string
+					for _, o := range origins(st.Val, sliceOpts{}) {
+						al, isAlloc := o.V.(*ssa.Alloc)
+						if o.Kind != "alloc" || !isAlloc {
+							continue
+						}
+						if !canReach(call, al) {
+							stale = append(stale, c.ipos(al))
+						}
+					}
+					r.check(len(stale) == 0, rule, fname(fn), fmt.Sprintf("appended pointer#%d", k), c.ipos(call), "the appended object is allocated per iteration (or obtained from a call)", "the pointer appended in the loop points to a variable allocated outside it ("+strings.Join(stale, ", ")+"): every entry of the list is the same object and ends up with the last block's values - the adapted JSON repeats the last block")
+				}
+			}
+		}
+	}
+	if n == 0 {
+		r.bad(rule, "unmarshallers", "appended pointers", "-", "no pointer is appended in a loop of an unmarshaller (rule has no instance)")
 	}
 }
